@@ -1,6 +1,8 @@
 package main
 
 import (
+	"go/types"
+
 	"golang.org/x/tools/go/ssa"
 )
 
@@ -21,6 +23,9 @@ func (c *Ctx) unmodelledStringFuncs() map[string]string {
 			f := call.Call.StaticCallee()
 			switch {
 			case isMethodNamed(f, "strings", "Builder", "String"), isMethodNamed(f, "strings", "Builder", "WriteString"):
+				if al, ok := call.Call.Args[0].(*ssa.Alloc); ok && modelledBuilders(fn)[al] {
+					return // a local accumulator: modelled (see below)
+				}
 				direct[fn] = "strings.Builder"
 			case isMethodNamed(f, "bytes", "Buffer", "String"), isMethodNamed(f, "bytes", "Buffer", "WriteString"), isMethodNamed(f, "bytes", "Buffer", "Bytes"):
 				// bytes.Buffer is also used as a byte container by the storage and fMP4 code: only string-producing functions count
@@ -53,4 +58,152 @@ func (c *Ctx) unmodelledStringFuncs() map[string]string {
 	}
 	c.cache["unmodelledStr"] = out
 	return out
+}
+
+// ---------------------------------------------------------------------------
+// strings.Builder model: a local Builder that is only used as the receiver of its own methods is a string
+// accumulator. Its abstract content is computed by a forward dataflow over the CFG; WriteString calls play the
+// part of `acc += x` (a junction is recorded between the content so far and the argument), String() yields the
+// content.
+
+type builderModel struct {
+	before map[*ssa.Call]sabs // content before a write call
+	result map[*ssa.Call]sabs // value of a String() call
+}
+
+func builderMethod(call *ssa.Call) (string, ssa.Value) {
+	f := call.Call.StaticCallee()
+	if f == nil || f.Signature.Recv() == nil || len(call.Call.Args) == 0 {
+		return "", nil
+	}
+	n := namedOf(f.Signature.Recv().Type())
+	if n == nil || n.Obj().Pkg() == nil || n.Obj().Pkg().Path() != "strings" || n.Obj().Name() != "Builder" {
+		return "", nil
+	}
+	return f.Name(), call.Call.Args[0]
+}
+
+// modelledBuilders: the Builder cells of fn every use of which is a method call with the cell as receiver.
+func modelledBuilders(fn *ssa.Function) map[*ssa.Alloc]bool {
+	out := map[*ssa.Alloc]bool{}
+	allInstrs(fn, func(in ssa.Instruction) {
+		al, ok := in.(*ssa.Alloc)
+		if !ok {
+			return
+		}
+		pt, ok := al.Type().Underlying().(*types.Pointer)
+		if !ok || !typeIs(pt.Elem(), "strings", "Builder") {
+			return
+		}
+		okAll := true
+		for _, ref := range *al.Referrers() {
+			switch x := ref.(type) {
+			case *ssa.Call:
+				name, recv := builderMethod(x)
+				if recv != ssa.Value(al) {
+					okAll = false
+				}
+				switch name {
+				case "WriteString", "WriteByte", "WriteRune", "String", "Len", "Grow", "Reset":
+				default:
+					okAll = false
+				}
+			case *ssa.DebugRef:
+			default:
+				okAll = false
+			}
+		}
+		if okAll {
+			out[al] = true
+		}
+	})
+	return out
+}
+
+func (si *strInterp) builderModelOf(fn *ssa.Function) *builderModel {
+	if si.builders == nil {
+		si.builders = map[*ssa.Function]*builderModel{}
+	}
+	if m, ok := si.builders[fn]; ok {
+		return m
+	}
+	m := &builderModel{before: map[*ssa.Call]sabs{}, result: map[*ssa.Call]sabs{}}
+	si.builders[fn] = m
+	cells := modelledBuilders(fn)
+	for al := range cells {
+		in := make([]sabs, len(fn.Blocks))
+		out := make([]sabs, len(fn.Blocks))
+		reached := make([]bool, len(fn.Blocks))
+		start := al.Block().Index
+		for iter := 0; iter < 40; iter++ {
+			changed := false
+			for _, b := range fn.Blocks {
+				var st sabs
+				if b.Index == start {
+					st = absConst("")
+					reached[b.Index] = true
+				} else {
+					any := false
+					for _, p := range b.Preds {
+						if reached[p.Index] {
+							st = st.join(out[p.Index])
+							any = true
+						}
+					}
+					if !any {
+						continue
+					}
+					reached[b.Index] = true
+				}
+				in[b.Index] = st
+				for _, ins := range b.Instrs {
+					call, ok := ins.(*ssa.Call)
+					if !ok {
+						continue
+					}
+					name, recv := builderMethod(call)
+					if recv != ssa.Value(al) {
+						continue
+					}
+					switch name {
+					case "WriteString":
+						arg := si.eval(call.Call.Args[1])
+						m.before[call] = m.before[call].join(st)
+						si.junctions = append(si.junctions, junction{at: call, left: st.last, right: arg.first})
+						st = absConcat(st, arg)
+					case "WriteByte", "WriteRune":
+						arg := absNonEmpty()
+						if k, ok := constInt(call.Call.Args[1]); ok && k > 0 && k < 128 {
+							arg = absConst(string(rune(k)))
+						}
+						m.before[call] = m.before[call].join(st)
+						si.junctions = append(si.junctions, junction{at: call, left: st.last, right: arg.first})
+						st = absConcat(st, arg)
+					case "Reset":
+						st = absConst("")
+					case "String":
+						m.result[call] = m.result[call].join(st)
+					}
+				}
+				if out[b.Index] != st {
+					out[b.Index] = st
+					changed = true
+				}
+			}
+			if !changed {
+				break
+			}
+		}
+	}
+	return m
+}
+
+// isModelledBuilderWrite: call is WriteString on a modelled Builder of its function.
+func isModelledBuilderWrite(call *ssa.Call) bool {
+	name, recv := builderMethod(call)
+	if name != "WriteString" {
+		return false
+	}
+	al, ok := recv.(*ssa.Alloc)
+	return ok && modelledBuilders(call.Parent())[al]
 }
